@@ -277,7 +277,7 @@ func init() {
 			c.guard("SEQ.START", func() { s.ruleStart() })
 			c.guard("SEQ.COMBINE", s.ruleCombine)
 			c.guard("SEQ.FOR", s.ruleFor)
-			c.guard("SEQ.GEN", s.ruleGen)
+			c.guard("SEQ.GEN", s.ruleGenHist)
 			c.guard("SEQ.LAZY", s.ruleLazyIters)
 			c.guard("RW.TMPL.YIELDFUNC", r.ruleTmplYieldFunc)
 			c.guard("RW.TMPL.BIND", r.ruleTmplBind)
